@@ -128,9 +128,11 @@ def _refine_pw_points_for_heating_or_cooling(
     :param hot_stream: True if the stream is hot, False if the stream is cold.
     :returns: Simplified array of points, maximum error.
     """
-    # Ensure the data is a numpy array
-    curve = np.flipud(curve)
-    pw_points = np.flipud(pw_points)
+    # np.interp needs ascending abscissae: flip only curves given in descending order
+    is_descending = curve[0, 0] > curve[-1, 0]
+    if is_descending:
+        curve = np.flipud(curve)
+        pw_points = np.flipud(pw_points)
 
     # Remove the first and last points because they are fixed
     # Convert 2d array to 1d array
@@ -170,7 +172,9 @@ def _refine_pw_points_for_heating_or_cooling(
     refined_pw_points = np.vstack(
         (args["first_point"], res.x.reshape(-1, 2), args["last_point"])
     )
-    return np.flipud(refined_pw_points), np.max(np.abs(delta_pw_and_data(res.x, args)))
+    if is_descending:
+        refined_pw_points = np.flipud(refined_pw_points)
+    return refined_pw_points, np.max(np.abs(delta_pw_and_data(res.x, args)))
 
 
 def _get_piecewise_breakpoints(
